@@ -57,6 +57,7 @@ def work(item):
         hist = "fresh"
         rename = lambda s_: ({"L": "seg", "O": "od", "D": "od"}.get(s_[0], s_) if s_ not in topo_nodes else s_)
     builder = netcheck.history_builders()[hist]
+    runs.set_default_history(hist)
     topo = T_.Topo.from_json(tj)
     topo_nodes = set(topo.nodes)
     rng = random.Random(seed)
